@@ -7,6 +7,7 @@ package interop
 
 //@ func ConvertToFunctionResponseMode
 //@   modifies nothing
+//@   ensures [known-modes-only] (r1 == nil) <==> (foldEq(value, "buffered") || foldEq(value, "streaming"))
 
 // C06: the platform-generated error body carries the error type it is given (Sandbox.Failure only if it cannot be serialised)
 //@ event ErrorBodyMarshalled = ret encoding/json.Marshal
